@@ -942,3 +942,277 @@ Proof.
   - simpl. lia.
   - vm_compute. reflexivity.
 Qed.
+
+(* ---- one-to-many (group_right): the right-hand side is the "many" side ------- *)
+
+Section OperatorProofsOTM.
+  Variable V : Type.
+  Variable dflt : V.
+  Variable op : V -> V -> V * bool.
+  Variable b2v : bool -> V.
+  Variable on : bool.
+  Variable ml incl : list N.
+  Variable c : card.
+  Variable return_bool : bool.
+  Variable op_drops_name : bool.
+  Variable lhs_series rhs_series : list labels.
+
+  Hypothesis Hc : is_one_to_many c = true.
+
+  Notation sg := (the_sig on ml).
+  Notation lb := (the_lbl on ml c return_bool op_drops_name).
+  Notation hidx := (op_hidx on ml c lhs_series rhs_series).
+  Notation lidx := (op_lidx on ml c lhs_series rhs_series).
+  Notation oseries := (op_series on ml incl c return_bool op_drops_name lhs_series rhs_series).
+  Notation pure := (pure_step V op b2v c return_bool hidx lidx).
+  Notation rmetric := (ref_result_metric op_drops_name return_bool c on ml incl).
+
+  Lemma hi_is_rhs : hi_series c lhs_series rhs_series = rhs_series.
+  Proof. unfold hi_series. rewrite Hc. reflexivity. Qed.
+  Lemma lo_is_lhs : lo_series c lhs_series rhs_series = lhs_series.
+  Proof. unfold lo_series. rewrite Hc. reflexivity. Qed.
+
+  Lemma hidx_spec' h : h < length rhs_series ->
+    nth h hidx None = if matched sg lhs_series (nth h rhs_series []) then Some (rank sg lhs_series rhs_series h) else None.
+  Proof. intros Hh. unfold op_hidx. rewrite hi_is_rhs, lo_is_lhs. apply hi_index_spec. assumption. Qed.
+
+  Lemma hidx_some' h o : nth h hidx None = Some o ->
+    h < length rhs_series /\ matched sg lhs_series (nth h rhs_series []) = true /\ o = rank sg lhs_series rhs_series h.
+  Proof.
+    intros H. destruct (Nat.lt_ge_cases h (length rhs_series)) as [Hl|Hg].
+    - rewrite hidx_spec' in H by assumption.
+      destruct (matched sg lhs_series (nth h rhs_series [])); [|discriminate]. inversion H. auto.
+    - unfold op_hidx in H. rewrite hi_is_rhs, lo_is_lhs in H. rewrite hi_index_overflow in H by assumption. discriminate.
+  Qed.
+
+  Lemma hidx_inj' h1 h2 o : nth h1 hidx None = Some o -> nth h2 hidx None = Some o -> h1 = h2.
+  Proof.
+    intros H1 H2. apply hidx_some' in H1. apply hidx_some' in H2.
+    destruct H1 as [L1 [M1 E1]], H2 as [L2 [M2 E2]].
+    apply (rank_injective sg rhs_series lhs_series); [exact L1|exact L2|exact M1|exact M2|].
+    rewrite <- E1, <- E2. reflexivity.
+  Qed.
+
+  Lemma lidx_In' l o : l < length lhs_series ->
+    (In o (nth l lidx []) <->
+     exists h, nth h hidx None = Some o /\ sg (nth h rhs_series []) = sg (nth l lhs_series [])).
+  Proof.
+    intros Hl. unfold op_lidx, op_hidx. rewrite hi_is_rhs, lo_is_lhs.
+    rewrite lo_index_In by assumption. split.
+    - intros [h [_ [Hn Hk]]]. exists h. split; [assumption|apply labels_eqb_eq; assumption].
+    - intros [h [Hn Hk]]. exists h. split.
+      + destruct (Nat.lt_ge_cases h (length rhs_series)) as [Hlt|Hge]; [assumption|].
+        rewrite hi_index_overflow in Hn by assumption. discriminate.
+      + split; [assumption|apply labels_eqb_eq; assumption].
+  Qed.
+
+  Variable lhs rhs : list (nat * V).
+  Hypothesis Hids_l : forall iv, In iv lhs -> fst iv < length lhs_series.
+  Hypothesis Hids_r : forall iv, In iv rhs -> fst iv < length rhs_series.
+  Hypothesis Hnd_l : NoDup (map fst lhs).
+  Hypothesis Hnd_r : NoDup (map fst rhs).
+  (* the "one" side is the left-hand side *)
+  Hypothesis A1 : forall i j, i < length lhs_series -> j < length lhs_series ->
+    sg (nth i lhs_series []) = sg (nth j lhs_series []) -> i = j.
+
+  Notation emitted := (emitted V op b2v return_bool).
+
+  Lemma pure_step_In' o v :
+    In (o, v) (pure lhs rhs) <->
+    exists ls rs, In ls lhs /\ In rs rhs /\ nth (fst rs) hidx None = Some o /\
+                  sg (nth (fst rs) rhs_series []) = sg (nth (fst ls) lhs_series []) /\ emitted ls rs v.
+  Proof.
+    unfold pure_step, lhs_outs, rhs_outs. rewrite Hc. split.
+    - intros H. apply in_flat_map in H. destruct H as [rs [Hrs H]].
+      apply in_flat_map in H. destruct H as [o' [Ho' H]].
+      destruct (find (feeds V o' (lo_outs lidx)) lhs) as [ls|] eqn:Ef; [|destruct H].
+      assert (o' = o) by (apply (emit_fst V b2v return_bool) in H; simpl in H; congruence). subst o'.
+      apply find_some in Ef. destruct Ef as [Hls Hfeed].
+      unfold feeds, lo_outs in Hfeed. apply existsb_eqb_In in Hfeed.
+      apply lidx_In' in Hfeed; [|apply Hids_l; assumption]. destruct Hfeed as [h [Hn Hk]].
+      unfold hi_outs in Ho'. destruct (nth (fst rs) hidx None) as [o1|] eqn:En; [|destruct Ho'].
+      destruct Ho' as [<-|[]]. assert (h = fst rs) by (eapply hidx_inj'; eauto). subst h.
+      exists ls, rs. apply (emit_In V b2v return_bool) in H. destruct H as [He Hv].
+      repeat split; auto.
+    - intros [ls [rs [Hls [Hrs [Hn [Hk [He Hv]]]]]]].
+      apply in_flat_map. exists rs. split; [assumption|].
+      apply in_flat_map. exists o. split.
+      + unfold hi_outs. rewrite Hn. left. reflexivity.
+      + assert (Hfeed : feeds V o (lo_outs lidx) ls = true).
+        { unfold feeds, lo_outs. apply existsb_eqb_In. apply lidx_In'; [apply Hids_l; assumption|].
+          exists (fst rs). auto. }
+        destruct (find (feeds V o (lo_outs lidx)) lhs) as [ls'|] eqn:Ef.
+        * apply find_some in Ef. destruct Ef as [Hls' Hfeed'].
+          unfold feeds, lo_outs in Hfeed'. apply existsb_eqb_In in Hfeed'.
+          apply lidx_In' in Hfeed'; [|apply Hids_l; assumption]. destruct Hfeed' as [h [Hn' Hk']].
+          assert (h = fst rs) by (eapply hidx_inj'; eauto). subst h.
+          assert (Hfst : fst ls' = fst ls) by (apply A1; [apply Hids_l; assumption|apply Hids_l; assumption|congruence]).
+          assert (ls' = ls) by (apply (NoDup_map_fst_unique lhs); assumption). subst ls'.
+          apply (emit_In V b2v return_bool). split; assumption.
+        * pose proof (find_none _ _ Ef ls Hls). congruence.
+  Qed.
+
+  Hypothesis HL : forall h l, h < length rhs_series -> l < length lhs_series ->
+    build_output incl return_bool (lb (nth h rhs_series [])) (nth l lhs_series []) =
+    rmetric (nth h rhs_series []) (nth l lhs_series []).
+
+  Lemma first_lo_unique' h l : l < length lhs_series ->
+    sg (nth h rhs_series []) = sg (nth l lhs_series []) ->
+    first_lo sg lhs_series (nth h rhs_series []) = Some (nth l lhs_series []).
+  Proof.
+    intros Hl Hs. unfold first_lo. destruct (find (key_eq sg (nth h rhs_series [])) lhs_series) as [x|] eqn:Ef.
+    - apply find_some in Ef. destruct Ef as [Hin Hk]. apply labels_eqb_eq in Hk.
+      apply In_nth with (d := []) in Hin. destruct Hin as [l' [Hl' <-]].
+      f_equal. f_equal. apply A1; [assumption|assumption|congruence].
+    - pose proof (find_none _ _ Ef (nth l lhs_series []) (nth_In _ _ Hl)) as Hn.
+      unfold key_eq in Hn. apply labels_eqb_eq in Hs. congruence.
+  Qed.
+
+  Lemma out_label' h l o : nth h hidx None = Some o -> l < length lhs_series ->
+    sg (nth h rhs_series []) = sg (nth l lhs_series []) ->
+    nth o oseries [] = rmetric (nth h rhs_series []) (nth l lhs_series []).
+  Proof.
+    intros Hn Hl Hs. apply hidx_some' in Hn. destruct Hn as [Hh [_ ->]].
+    rewrite <- HL by assumption.
+    apply nth_error_nth. unfold op_series. rewrite hi_is_rhs, lo_is_lhs.
+    apply out_series_rank; [assumption|]. apply first_lo_unique'; assumption.
+  Qed.
+
+  Lemma find_one' (ls rs : nat * V) : In ls lhs ->
+    sg (nth (fst rs) rhs_series []) = sg (nth (fst ls) lhs_series []) ->
+    find (fun ls' => sig_eq sg (nth (fst rs) rhs_series []) (fst ls')) (labelled V lhs_series lhs) =
+    Some (nth (fst ls) lhs_series [], snd ls).
+  Proof.
+    intros Hls Hs.
+    destruct (find (fun ls' => sig_eq sg (nth (fst rs) rhs_series []) (fst ls')) (labelled V lhs_series lhs)) as [x|] eqn:Ef.
+    - apply find_some in Ef. destruct Ef as [Hin Hk]. unfold labelled in Hin. apply in_map_iff in Hin.
+      destruct Hin as [l2 [<- Hl2]]. simpl in Hk. apply labels_eqb_eq in Hk.
+      assert (Hf : fst l2 = fst ls) by (apply A1; [apply Hids_l; assumption|apply Hids_l; assumption|congruence]).
+      assert (l2 = ls) by (apply (NoDup_map_fst_unique lhs); assumption). subst. reflexivity.
+    - assert (Hin : In (nth (fst ls) lhs_series [], snd ls) (labelled V lhs_series lhs)).
+      { unfold labelled. apply in_map_iff. exists ls. split; [reflexivity|assumption]. }
+      pose proof (find_none _ _ Ef _ Hin) as Hn. simpl in Hn. unfold sig_eq in Hn.
+      apply labels_eqb_eq in Hs. congruence.
+  Qed.
+
+  Theorem operator_step_matches_reference_otm out :
+    ref_operator_step V op b2v on ml incl c return_bool op_drops_name lhs_series rhs_series lhs rhs = Some out ->
+    forall m v,
+      In (m, v) (relabel V on ml incl c return_bool op_drops_name lhs_series rhs_series (pure lhs rhs)) <-> In (m, v) out.
+  Proof.
+    intros Href m v. unfold ref_operator_step, ref_step in Href. rewrite Hc in Href.
+    destruct (has_dup_sig V sg (labelled V lhs_series lhs)); [discriminate|].
+    pose proof (ref_many_In V op b2v sg rmetric c return_bool _ _ _ _ Href (m, v)) as R.
+    rewrite R. clear R. unfold relabel. rewrite in_map_iff. split.
+    - intros [[o v'] [Heq Hin]]. simpl in Heq. inversion Heq; subst m v'. clear Heq.
+      apply pure_step_In' in Hin. destruct Hin as [ls [rs [Hls [Hrs [Hn [Hs [He Hv]]]]]]].
+      exists (nth (fst rs) rhs_series [], snd rs), (nth (fst ls) lhs_series [], snd ls).
+      split; [unfold labelled; apply in_map_iff; exists rs; split; [reflexivity|assumption]|].
+      split; [apply find_one'; assumption|].
+      unfold ref_emits, ref_res. rewrite Hc. simpl. split; [exact He|].
+      f_equal; [|exact Hv]. apply (out_label' (fst rs) (fst ls)); [assumption|apply Hids_l; assumption|assumption].
+    - intros [rs' [ls' [Hin [Hf He]]]]. unfold labelled in Hin. apply in_map_iff in Hin.
+      destruct Hin as [rs [<- Hrs]]. simpl in Hf.
+      apply find_some in Hf. destruct Hf as [Hin' Hk]. unfold labelled in Hin'. apply in_map_iff in Hin'.
+      destruct Hin' as [ls [<- Hls]]. simpl in Hk. apply labels_eqb_eq in Hk.
+      assert (Hm : matched sg lhs_series (nth (fst rs) rhs_series []) = true).
+      { unfold matched. apply existsb_exists. exists (nth (fst ls) lhs_series []).
+        split; [apply nth_In; apply Hids_l; assumption|apply labels_eqb_eq; assumption]. }
+      pose proof (hidx_spec' (fst rs) (Hids_r rs Hrs)) as Hn. rewrite Hm in Hn.
+      unfold ref_emits, ref_res in He. rewrite Hc in He. simpl in He. destruct He as [He Hx].
+      exists (rank sg lhs_series rhs_series (fst rs), v). split.
+      + simpl. inversion Hx; subst. f_equal.
+        apply (out_label' (fst rs) (fst ls)); [assumption|apply Hids_l; assumption|assumption].
+      + apply pure_step_In'. exists ls, rs. repeat split; auto. inversion Hx; reflexivity.
+  Qed.
+
+  Theorem operator_step_ok_otm (t : tbl V) : length t = length oseries ->
+    step_ok V c hidx lidx t lhs rhs.
+  Proof.
+    intros Hlen. unfold step_ok, all_outs, lhs_outs, rhs_outs. rewrite Hc.
+    assert (Hrange : forall l o, l < length lhs_series -> In o (nth l lidx []) -> o < length oseries).
+    { intros l o Hl Ho. apply lidx_In' in Ho; [|assumption]. destruct Ho as [h [E1 _]].
+      apply hidx_some' in E1. destruct E1 as [Hh [Hm ->]].
+      apply matched_first_lo in Hm. destruct Hm as [l' Hf].
+      pose proof (out_series_rank sg lb incl return_bool rhs_series lhs_series h l' Hh Hf) as Hr.
+      unfold op_series. rewrite hi_is_rhs, lo_is_lhs. apply nth_error_Some. rewrite Hr. discriminate. }
+    split; [|split].
+    - apply NoDup_flat_map.
+      + apply NoDup_map_inv with (f := fst). assumption.
+      + intros x _. unfold lo_outs, op_lidx. apply lo_index_NoDup.
+      + intros x y o Hx Hy Hox Hoy. unfold lo_outs in Hox, Hoy.
+        apply lidx_In' in Hox; [|apply Hids_l; assumption]. apply lidx_In' in Hoy; [|apply Hids_l; assumption].
+        destruct Hox as [h1 [N1 S1]]. destruct Hoy as [h2 [N2 S2]].
+        assert (h1 = h2) by (eapply hidx_inj'; eauto). subst h2.
+        apply (NoDup_map_fst_unique lhs); [assumption|assumption|assumption|].
+        apply A1; [apply Hids_l; assumption|apply Hids_l; assumption|congruence].
+    - intros o Ho. apply in_flat_map in Ho. destruct Ho as [x [Hx Ho]]. rewrite Hlen.
+      apply (Hrange (fst x)); [apply Hids_l; assumption|exact Ho].
+    - apply NoDup_flat_map.
+      + apply NoDup_map_inv with (f := fst). assumption.
+      + intros x _. unfold hi_outs. destruct (nth (fst x) hidx None); repeat constructor. intros [].
+      + intros x y o Hx Hy Hox Hoy. unfold hi_outs in Hox, Hoy.
+        destruct (nth (fst x) hidx None) as [o1|] eqn:E1; [|destruct Hox].
+        destruct (nth (fst y) hidx None) as [o2|] eqn:E2; [|destruct Hoy].
+        destruct Hox as [<-|[]]. destruct Hoy as [->|[]].
+        apply (NoDup_map_fst_unique rhs); [assumption|assumption|assumption|]. eapply hidx_inj'; eauto.
+  Qed.
+End OperatorProofsOTM.
+
+Section QueryProofsOTM.
+  Variable V : Type.
+  Variable dflt : V.
+  Variable op : V -> V -> V * bool.
+  Variable b2v : bool -> V.
+  Variable on : bool.
+  Variable ml incl : list N.
+  Variable c : card.
+  Variable return_bool : bool.
+  Variable op_drops_name : bool.
+  Variable lhs_series rhs_series : list labels.
+
+  Notation stepT := (Z * list (nat * V) * list (nat * V))%type.
+  Notation hidx := (op_hidx on ml c lhs_series rhs_series).
+  Notation lidx := (op_lidx on ml c lhs_series rhs_series).
+  Notation oseries := (op_series on ml incl c return_bool op_drops_name lhs_series rhs_series).
+  Notation pure := (pure_step V op b2v c return_bool hidx lidx).
+  Notation relab := (relabel V on ml incl c return_bool op_drops_name lhs_series rhs_series).
+  Notation good := (good_step V lhs_series rhs_series).
+
+  Lemma steps_ok_of_good_otm : is_one_to_many c = true -> one_side_unique on ml lhs_series ->
+    forall steps prev, increasing V prev steps -> Forall good steps ->
+    steps_ok V c hidx lidx (length oseries) prev steps.
+  Proof.
+    intros Hc HA. induction steps as [|[[ts lhs] rhs] steps IH]; intros prev Hinc Hgood; simpl; [exact I|].
+    simpl in Hinc. destruct Hinc as [Hlt Hinc]. inversion Hgood as [|? ? [G1 [G2 [G3 G4]]] Hgood']; subst. simpl in *.
+    destruct (operator_step_ok_otm V on ml incl c return_bool op_drops_name lhs_series rhs_series Hc lhs rhs G1 G3 G4 HA
+                (new_table V dflt (length oseries))) as [S1 [S2 S3]].
+    { unfold new_table. apply repeat_length. }
+    split; [exact Hlt|]. split; [exact S1|]. split.
+    - intros o Ho. specialize (S2 o Ho). unfold new_table in S2. rewrite repeat_length in S2. exact S2.
+    - split; [exact S3|]. apply IH; assumption.
+  Qed.
+
+  Theorem run_operator_is_pairing_otm : is_one_to_many c = true -> one_side_unique on ml lhs_series ->
+    forall steps prev, (noT <= prev)%Z -> increasing V prev steps -> Forall good steps ->
+    run_operator V dflt op b2v on ml incl c return_bool op_drops_name lhs_series rhs_series steps =
+    inl (map (fun s : stepT => (fst (fst s), relab (pure (snd (fst s)) (snd s)))) steps).
+  Proof.
+    intros Hc HA steps prev Hp Hinc Hgood. unfold run_operator.
+    rewrite (exec_steps_pure V dflt op b2v c return_bool hidx lidx steps _ prev Hp).
+    - rewrite map_map. reflexivity.
+    - apply new_table_tags. lia.
+    - unfold new_table. rewrite repeat_length. apply steps_ok_of_good_otm; assumption.
+  Qed.
+
+  Theorem run_operator_matches_reference_otm : is_one_to_many c = true -> one_side_unique on ml lhs_series ->
+    forall (s : stepT) out, good s ->
+    ref_operator_step V op b2v on ml incl c return_bool op_drops_name lhs_series rhs_series (snd (fst s)) (snd s) = Some out ->
+    forall m v, In (m, v) (relab (pure (snd (fst s)) (snd s))) <-> In (m, v) out.
+  Proof.
+    intros Hc HA [[ts lhs] rhs] out [G1 [G2 [G3 G4]]] Href. simpl in *.
+    apply (operator_step_matches_reference_otm V op b2v on ml incl c return_bool op_drops_name lhs_series rhs_series Hc
+             lhs rhs G1 G2 G3 HA); [|exact Href].
+    intros h l _ _. apply labels_agree. intros H11. destruct c; discriminate.
+  Qed.
+End QueryProofsOTM.
